@@ -91,6 +91,8 @@ type FileSpec struct {
 	// Only restricts the file to some runtimes (nil = all). proto3 optional is not supported by
 	// protoc-gen-gogo 1.3.2 (protoc refuses to run it on such files), so it is outside the gogo/legacy matrix.
 	Only []Runtime
+	// Deps lists corpus files this file imports.
+	Deps []string
 }
 
 // For reports whether the file is part of the matrix of runtime rt.
@@ -111,7 +113,14 @@ type fb struct {
 	pkg string
 }
 
-func (b *fb) typeName(local string) string { return "." + b.pkg + "." + local }
+// typeName resolves a local type name; "@file.Type" refers to a type of another corpus file of the same runtime.
+func (b *fb) typeName(local string) string {
+	if strings.HasPrefix(local, "@") {
+		parts := strings.SplitN(local[1:], ".", 2)
+		return "." + b.pkg[:strings.LastIndex(b.pkg, ".")] + "." + parts[0] + "." + parts[1]
+	}
+	return "." + b.pkg + "." + local
+}
 
 type mb struct {
 	b *fb
@@ -422,6 +431,46 @@ func Files() []FileSpec {
 			t := b.msg("Tags")
 			t.field("c", 1, Req, kindByName("bool"), fopt{})
 		}})
+	out = append(out, FileSpec{Name: "p2nestreq", Syntax: "proto2", Cells: "proto2: the ONLY messages with required fields are nested ones",
+		build: func(b *fb) {
+			o := b.msg("Outer")
+			o.field("x", 1, Opt, kindByName("int32"), fopt{})
+			in := o.nested("Inner")
+			in.field("a", 1, Req, kindByName("int32"), fopt{})
+			in.field("s", 2, Opt, kindByName("string"), fopt{})
+			o.field("in", 2, Opt, kindByName("message"), fopt{typeName: "Outer.Inner"})
+			o.field("ins", 3, Rep, kindByName("message"), fopt{typeName: "Outer.Inner"})
+			p := b.msg("Plain")
+			p.field("y", 1, Opt, kindByName("string"), fopt{})
+		}})
+	out = append(out, FileSpec{Name: "p3imp", Syntax: "proto3", Deps: []string{"p3"}, Cells: "proto3: enum and message types imported from another Go package in singular, repeated, map-value and oneof positions",
+		build: func(b *fb) {
+			m := b.msg("Imp")
+			m.field("c", 1, Opt, kindByName("enum"), fopt{typeName: "@p3.Color"})
+			m.field("m", 2, Opt, kindByName("message"), fopt{typeName: "@p3.Child"})
+			m.field("rc", 3, Rep, kindByName("enum"), fopt{typeName: "@p3.Color"})
+			m.field("rm", 4, Rep, kindByName("message"), fopt{typeName: "@p3.Child"})
+			m.mapField("mc", 5, kindByName("string"), kindByName("enum"), "@p3.Color")
+			m.mapField("mm", 6, kindByName("int32"), kindByName("message"), "@p3.Child")
+			oi := m.oneofDecl("pick")
+			m.field("oc", 7, Opt, kindByName("enum"), fopt{typeName: "@p3.Color", oneof: oi})
+			m.field("om", 8, Opt, kindByName("message"), fopt{typeName: "@p3.Child", oneof: oi})
+			m.field("os", 9, Opt, kindByName("string"), fopt{oneof: oi})
+			m.field("local", 10, Opt, kindByName("message"), fopt{typeName: "Loc"})
+			l := b.msg("Loc")
+			l.field("c", 1, Opt, kindByName("enum"), fopt{typeName: "@p3.Color"})
+		}})
+	out = append(out, FileSpec{Name: "p2imp", Syntax: "proto2", Deps: []string{"p2"}, Cells: "proto2: imported enum/message types (optional, required, repeated, oneof) and an extension of an imported type",
+		build: func(b *fb) {
+			m := b.msg("Imp")
+			m.field("c", 1, Opt, kindByName("enum"), fopt{typeName: "@p2.Color"})
+			m.field("m", 2, Req, kindByName("message"), fopt{typeName: "@p2.Child"})
+			m.field("rc", 3, Rep, kindByName("enum"), fopt{typeName: "@p2.Color"})
+			m.field("pc", 4, Rep, kindByName("enum"), fopt{typeName: "@p2.Color", packed: tr(true)})
+			oi := m.oneofDecl("pick")
+			m.field("oc", 7, Opt, kindByName("enum"), fopt{typeName: "@p2.Color", oneof: oi})
+			m.field("om", 8, Opt, kindByName("message"), fopt{typeName: "@p2.ReqChild", oneof: oi})
+		}})
 	return out
 }
 
@@ -453,8 +502,25 @@ func Build(spec FileSpec, rt Runtime) *descriptorpb.FileDescriptorProto {
 	} else {
 		fd.Syntax = proto.String("proto2")
 	}
+	for _, d := range spec.Deps {
+		ds, ok := Spec(d)
+		if !ok {
+			panic("unknown corpus dependency " + d)
+		}
+		fd.Dependency = append(fd.Dependency, ProtoPath(ds, rt))
+	}
 	spec.build(&fb{fd: fd, pkg: pkg})
 	return fd
+}
+
+// BuildWithDeps returns the file's dependencies (in dependency order) followed by the file itself.
+func BuildWithDeps(spec FileSpec, rt Runtime) []*descriptorpb.FileDescriptorProto {
+	var out []*descriptorpb.FileDescriptorProto
+	for _, d := range spec.Deps {
+		ds, _ := Spec(d)
+		out = append(out, BuildWithDeps(ds, rt)...)
+	}
+	return append(out, Build(spec, rt))
 }
 
 // Spec finds a file spec by name.
